@@ -296,7 +296,7 @@ class Ctx:
             "seed": self.seed,
             "level": self.level,
             "coverage": cov,
-            "assumptions": self.assumptions,
+            "assumptions": self.assumptions + ([self.extra_oracle_note] if getattr(self, "extra_oracle_note", None) else []),
             "wall_s": round(time.time() - self.t0, 2),
             "violations": len(self.violations),
         }
